@@ -38,6 +38,7 @@ class _Env:
         self.sleep_hook = None     # callable(seconds) or None -> advance the clock
         self.random_hook = None    # callable(kind, a, b) -> value
         self.time_autostep = 0.0   # every read of the clock advances it by this much
+        self.sched = None          # engine S: the active Scheduler (locks created while it is set are instrumented)
 
 
 ENV = _Env()
@@ -51,6 +52,10 @@ def _now():
 
 
 def _sleep(seconds=0):
+    if ENV.sched is not None and ENV.sched.me() is not None:
+        ENV.now += max(0.0, float(seconds))
+        ENV.sched.point('sleep')
+        return
     if ENV.sleep_hook is not None:
         ENV.sleep_hook(seconds)
     else:
@@ -149,9 +154,36 @@ class HThread:
         self.daemon = d
 
 
+def _lock_factory():
+    if ENV.sched is not None:
+        from mcx.sched import SchedLock
+        return SchedLock(lambda: ENV.sched, _lock_name())
+    return _real_threading.Lock()
+
+
+def _rlock_factory():
+    if ENV.sched is not None:
+        from mcx.sched import SchedRLock
+        return SchedRLock(lambda: ENV.sched, _lock_name())
+    return _real_threading.RLock()
+
+
+def _lock_name():
+    import inspect
+    try:
+        fr = inspect.stack()[2]
+        line = (fr.code_context or [''])[0].strip()
+        target = line.split('=')[0].strip().replace('self.', '') if '=' in line else fr.function
+        return f'{Path(fr.filename).stem}.{target}'
+    except Exception:  # noqa: BLE001
+        return 'lock'
+
+
 FAKE_THREADING = types.SimpleNamespace(**{k: getattr(_real_threading, k) for k in dir(_real_threading)
                                           if not k.startswith('__')})
 FAKE_THREADING.Thread = HThread
+FAKE_THREADING.Lock = _lock_factory
+FAKE_THREADING.RLock = _rlock_factory
 FAKE_THREADING.__name__ = 'threading'
 
 _installed = False
@@ -202,6 +234,10 @@ def install(threads=True):
                 setattr(mod, attr, FAKE_THREADING)
             elif threads and val is _real_threading.Thread:
                 setattr(mod, attr, HThread)
+            elif val is _real_threading.Lock and attr == 'Lock':
+                setattr(mod, attr, _lock_factory)
+            elif val is _real_threading.RLock and attr == 'RLock':
+                setattr(mod, attr, _rlock_factory)
             elif val is _real_time.time and attr == 'time':
                 setattr(mod, attr, _now)
             elif val is _real_time.sleep:
